@@ -743,7 +743,7 @@ PROPS["C11"]["outside"] = "encoding, every other pattern (free pattern text and 
 NOT_APPLICABLE.update({
     "C04": "RollingFileAppender/FileAppender::append over a file model did not fit CBMC: a single append ran 20 min of symbolic execution and 8-12 GB with std's BufWriter and also with a small array-backed BufWriter model under the guard (heap-resident lengths, io::Error drop fan-out); no meaningful smaller unit of C04 exists (DESIGN.md 9.6)",
     "C05": "same measurement as C04: the appender's append path is out of reach; the pieces that fit are claimed elsewhere (rollers: C07, trigger/policy units: C06, C17); the stream law of C05 itself is not decided",
-    "C12": "JsonEncoder::encode_inner (serde_json + chrono formatting + fmt machinery over heap buffers): a 1-unit message was still in symbolic execution after 15 min / 4 GB, and after 30 min / 5.3 GB once the sink could no longer fail (DESIGN.md 9.8 rule 20): serde_json's escape loop writes slices with symbolic bounds, each of which unrolls the sink's copy loop to its bound; no smaller unit of C12 separates from serde_json (DESIGN.md 9.6, 9.8)",
+    "C12": "JsonEncoder::encode_inner (serde_json + chrono formatting + fmt machinery over heap buffers): a 1-unit message was still in symbolic execution after 15 min / 4 GB, and after 30 min / 5.3 GB once the sink could no longer fail (DESIGN.md 9.8 rule 20); the constant-size instance (rule 23: a one-byte message with symbolic content, level / target / optional fields / MDC fixed) ran 20 min in symbolic execution until CBMC exhausted its address space - serde_json's escape loop writes slices whose bounds depend on the content, so the copy sizes stay symbolic; no smaller unit of C12 separates from serde_json (DESIGN.md 9.6, 9.8)",
     "C15": "the public path Logger::new_with_err_handler -> Log::log -> Handle::set_config over the ArcSwap and container models: two 2-appender configurations with one logger: 30 min / 9 GB without an answer, twice; the smallest shape (two root-only configurations with one appender each, no failing appender; solver variables: two levels, the swap position, two record levels): 25 min / 6 GB without an answer - the configuration travels through Option<Config> and Arc, so the length of its (empty) logger list is not a constant for the executor and the stable sort in SharedLogger::new is explored as a phantom for every build (DESIGN.md 9.6, 9.8); the reloader half needs serde_yaml and a thread",
     "C19": "expand_env_vars builds Strings on the heap; every copy has a solver-side symbolic size: 20 s of symbolic execution, then > 12 GB in the SSA-to-SAT conversion for the 12-byte path '/a/$ENV{A}/b' (DESIGN.md 9.6); the defect found by the native twin is fixed",
 })
@@ -771,13 +771,13 @@ PROPS["C09"] = dict(
     functions=["FormattedChunk::encode - arms Level, Message, Module, File, Line, Target, Newline, Thread, SystemThreadId, Highlight, Debug, Release, ThreadId, ProcessId",
                "the default io::Write::{write_fmt, write_all} and the core::fmt machinery they drive (executed for real)"],
     bounds="one formatter per harness (the formatter is an instance parameter); solver variables: record level (5), message and target "
-           "text of 0..2 units over {a, '{', '\\', e-acute} (0-4 bytes), presence of module path / file / line; unwind 8",
+           "text of 0..2 units over {a, '{', '\\', e-acute} (0-4 bytes), presence of module path / file / line; the line number over 0..65535 (all of u32 did not finish: 32-bit division circuits on both sides); unwind 8 (line: 12)",
     outside="EVERYTHING that makes a pattern out of formatters is outside this claim: the parser (text, escapes, arguments, nesting), the "
             "Piece -> Chunk table (names, aliases, arity checks), the in-order loop of PatternEncoder::encode over its heap-stored chunk "
             "list, group nesting with content, and the date and MDC formatters (one_mdc - two heap strings and the fmt machinery - exhausted 10 GB); process id and thread id are decided only as 'writes what its source returns' (their sources are stubs). The "
             "whole-pattern harnesses (c09_pattern::pat_*) are kept in the harness crate and run natively, but did not fit the solver: "
             "the chunk list lives on the heap and the enum tags are read through unions, so every element explores every formatter "
-            "(DESIGN.md 9.6, 9.8). Also outside: longer texts, other scalars.",
+            "(DESIGN.md 9.6, 9.8). Also outside: longer texts, other scalars, line numbers above 65535.",
     assumptions=_pat_assumptions + ["hook verif_formatter_direct builds one FormattedChunk on the stack and runs the real FormattedChunk::encode on it",
                                     "the sink's write_all is overridden (takes everything, never fails); the default write_fmt is the real one"],
     level_text="Bounded model checking of each record-field formatter of the real FormattedChunk::encode: for every level, every text "
@@ -955,3 +955,9 @@ PROPS["C11"]["level_text"] = ("Bounded model checking of the real width parsing:
                               "Parser::parameters returns exactly the value when it fits usize and an error otherwise.")
 PROPS["C11"]["level_note"] = ("Trusted: Kani/CBMC/CaDiCaL. Kani models the dev profile (overflow checks on). PARTIAL: only 'absurd widths' of the statement is decided; "
                               "totality of the parser on arbitrary strings and the {ERROR: ...} rendering are not (the parser on 3 free bytes ran 30 min without an answer, DESIGN.md 9.8).")
+# C11: Parser::parameters is total on spec texts (the same harnesses as C10's spec half): any panic inside it is a failed obligation
+PROPS["C11"]["harnesses"] = PROPS["C11"]["harnesses"] + [
+    H("c10_spec::spec_free5", instance="':' + 5 free bytes over {< > . 0 1 9 * } x :} + '}': no panic, and the documented meaning", symbolic="5 bytes", bound="unwind 10", **_s),
+    H("c10_spec::spec_fill2_free4", instance="':' + e-acute + 4 free bytes + '}' (a multi-byte character right after the ':')", symbolic="4 bytes", bound="unwind 10", **_s),
+]
+PROPS["C11"]["bounds"] += "; Parser::parameters on every spec text of 5 free bytes over the spec alphabet, also behind a 2-byte character"
